@@ -7,6 +7,8 @@ LEAVES = [
     ('re', 'a+'), ('re', 'b?'), ('ref', 'Rab'), ('ref', 'Ra'), ('fail',), ('back', 1),
 ]
 SMALL_LEAVES = [('str', 'a'), ('str', 'ab'), ('re', 'b?'), ('ref', 'Rab'), ('back', 1)]
+TINY_LEAVES = [('str', 'a'), ('str', 'ab')]
+LITERAL_FORMS = [(k, v) for k in ('str', 'stri', 're', 'rei') for v in ('a', 'A', 'ab')]
 AUX = [('Rab', ('rule', None, ('seq', ('str', 'a'), ('str', 'b')))),
        ('Ra', ('rule', None, ('str', 'a')))]
 AUXD = dict(AUX)
@@ -105,6 +107,18 @@ def universe(tier):
     for e in nary(LEAVES):
         if wellformed(e, aux):
             yield ('text-nary', e, AUX, False, 'abA:4')
+    # three operators over a two-leaf alphabet: every grandparent/parent/child combination of
+    # constructors (static flags of composite children: Opt(..), (..)*, Skip(..) always succeed but consume)
+    for e in gen(3, TINY_LEAVES):
+        if wellformed(e, aux):
+            yield ('text=3/tiny', e, AUX, False, 'abA:4')
+    # every pair of literal forms (kind x spelling x case flag) in every binary construct and across
+    # rules: literals that share a pattern or spelling but differ in kind or flag
+    for x in LITERAL_FORMS:
+        for y in LITERAL_FORMS:
+            for b in BIN:
+                yield ('literal-pairs', (b, x, y), AUX, False, 'abA:4')
+            yield ('literal-pairs', ('seq', x, ('ref', 'Ry')), AUX + [('Ry', ('rule', None, y))], False, 'abA:4')
     # bytes mode
     bl = [('str', 'a'), ('str', 'ab'), ('str', ''), ('re', 'a+'), ('re', 'b?'), ('byte', 0x61),
           ('byte', 0x62), ('ref', 'Rab'), ('fail',), ('back', 1)]
